@@ -70,6 +70,9 @@ var scenarios = []struct {
 	name string
 	src  string
 }{
+	{"coroutine_kept_in_a_global", `CO = coroutine.create(function() local n = 0 while true do n = n + 1 emit("z", n) if n % 3 == 0 then coroutine.yield(n) end end end)
+for i = 1, 6 do emit("m", coroutine.resume(CO)) end
+emit("done")`},
 	{"xpcall_handler_after_stack_overflow", `local function rec(n) return rec(n + 1) + 1 end
 local ok, e = xpcall(function() return rec(1) end, function(m) for i = 1, 40 do emit("so", i) end return "H" end)
 emit("done", ok)`},
@@ -354,6 +357,24 @@ func (e *Engine) Run(t *core.Tape, cfg *core.Config, st *core.Stats) *core.Viola
 		if !sameTrace(r.h.Trace, r0.h.Trace[:want]) {
 			return core.Violationf("not-exact-prefix", "%s: the run must show exactly the %d emits that happened before the fire; it shows %d\ngot:\n  %s\nwant:\n  %s\n%s",
 				where, want, len(r.h.Trace), showTrace(r.h.Trace), showTrace(r0.h.Trace[:want]), desc())
+		}
+		// a coroutine the program left in the global CO - dead (killed by the cancellation) or suspended - is a coroutine
+		// created after the context was attached: entered through the Go API now, it executes nothing either
+		if co, ok := r.h.L.GetGlobal("CO").(*lua.LState); ok && !threadCancel {
+			n0, s0 := len(r.h.Trace), r.h.Steps
+			var err error
+			func() {
+				defer func() {
+					if p := recover(); p != nil {
+						err = fmt.Errorf("Go panic: %v", p)
+					}
+				}()
+				err = co.DoString(`emit("entered a coroutine of the cancelled state")`)
+			}()
+			st.Probe("coroutine_entered_after_cancellation")
+			if err == nil || len(r.h.Trace) != n0 {
+				return core.Violationf("dispatch-after-done", "%s: after the cancelled call had returned, a chunk run through the Go API on the coroutine the program keeps in CO (status %s) executed (%d further instruction boundaries, error %v)\n%s", where, r.h.L.Status(co), r.h.Steps-s0, err, desc())
+			}
 		}
 		if !r.out.ErrIsCancel {
 			return core.Violationf("no-cancel-error", "%s: the entry point returned %q, which does not carry the context's reason\n%s", where, r.out.RawError, desc())
